@@ -1522,6 +1522,7 @@ func init() {
 			{Name: "HEAP-IFACE", What: "Len/Swap/Push/Pop of bySortOrderAndID are the canonical slice-backed heap methods", Floor: 4, Run: ruleHeapIface},
 			{Name: "TIE-ID", What: "Less(i,j) = less(head_i,head_j) or (not less(head_j,head_i) and id_i < id_j), all 12 valuations", Floor: 1, Run: ruleTieID},
 			{Name: "ORDER-KEY", What: "LessByCoordinate is (reference id in the header, position) with unplaced last, over all orderings; LessByName is Name <", Floor: 2, Run: ruleOrderKey},
+			{Name: "PATH-BAMLEN", What: "bam.newBuffer returns the errors of both reads of a record, and a source that ends inside the length prefix is io.ErrUnexpectedEOF, not a clean end: the Merger takes io.EOF from a source as \"exhausted\" (shared with C10; under C18 since seventh-round seed C18-h)", Floor: 1, Run: ruleBamLen},
 			{Name: "TAB-ORDER", What: "NewMerger maps Unknown→caller's less, Unsorted→concatenate, QueryName→LessByName, Coordinate→LessByCoordinate; Read dispatches on less == nil", Floor: 6, Run: ruleTabOrder},
 		},
 		Explanation: "The merge is a heap of sources keyed by their head records. The rules establish, on every path, the invariants the algorithm rests on: every member of the heap has a head that is non-nil (guard on the last Read's error + READ-CONTRACT) and already linked to the merged header (so that the reference ids LessByCoordinate compares are those of Merger.Header()); one step pops one source, hands out its old head, advances exactly that source once and re-inserts it only if it has a record; a source is dropped only at io.EOF or with its error kept and reported before io.EOF; the link table used is that of the source the record came from; the comparators are the documented ones, evaluated here over every ordering of the quantities they compare.",
